@@ -137,6 +137,12 @@ LAYOUTS = {
 }
 
 
+# layouts in which some variable signals hold a 0-d value (python float) instead of an array: {layout: signal indices}
+SCALAR_SIGNALS = {'arr3+scalar': [1], 'arr2+scalar+arr2': [1], 'scalar+arr3': [0], 'scalars3': [0, 1, 2]}
+LAYOUTS.update({'arr3+scalar': ([3, 1], 'list'), 'arr2+scalar+arr2': ([2, 1, 2], 'list'), 'scalar+arr3': ([1, 3], 'list'),
+                'scalars3': ([1, 1, 1], 'list')})
+
+
 def horizon(move, xmin, xmax, n):
     rng = float(np.max(oc.full(xmax, n) - oc.full(xmin, n)))
     return int(np.ceil(rng / move) + 10)
@@ -211,6 +217,8 @@ def run_once(case, tol, stop):
     sizes, how, n, c, xmin, xmax, bkw, x0, maxvol = problem(case)
     offs = np.concatenate([[0], np.cumsum(sizes)]).astype(int)
     sigs = [pym.Signal(f'x{i}', x0[offs[i]:offs[i + 1]].copy()) for i in range(len(sizes))]
+    for i_ in SCALAR_SIGNALS.get(case['layout'], []):
+        sigs[i_].state = float(x0[offs[i_]])
     if case.get('xdtype') == 'int':     # integer-typed start design (np.ones(n, dtype=int)): a legitimate input
         for s_ in sigs:
             s_.state = s_.state.astype(int)
@@ -277,14 +285,16 @@ def judge_run(case, tol, stop):
     for k, d in enumerate(designs):
         nchecks += 1
         own_start = k == 0 and case.get('xdtype') == 'int'      # the start design is the user's own integer array
-        if len(d) != len(sizes) or any(np.shape(p) != (sz,) or (np.asarray(p).dtype.kind != 'f' and not own_start)
-                                       for p, sz in zip(d, sizes)):
+        scal = SCALAR_SIGNALS.get(case['layout'], [])      # a scalar variable may come back as 0-d value or length-1 array
+        if len(d) != len(sizes) or any((np.shape(p) != (sz,) and not (q in scal and np.shape(p) == ()))
+                                       or (np.asarray(p).dtype.kind != 'f' and not own_start)
+                                       for q, (p, sz) in enumerate(zip(d, sizes))):
             bad('writeback_shape', {}, step=k, got=[list(np.shape(p)) for p in d], want=[[s] for s in sizes])
             shapes_ok = False
             break
     if not shapes_ok:
         designs = designs[:k]
-    flat = [np.concatenate([np.asarray(p, dtype=float) for p in d]) for d in designs]
+    flat = [np.concatenate([np.atleast_1d(np.asarray(p, dtype=float)) for p in d]) for d in designs]
     offs = np.concatenate([[0], np.cumsum(sizes)]).astype(int)
 
     for k in range(1, len(flat)):
@@ -438,7 +448,7 @@ MULTI = [k for k, v in LAYOUTS.items() if len(v[0]) > 1]
 
 Q_AXES = dict(
     layouts=['one1_bare', 'one2_list', 'one3_bare', 'one6_list', 'two_2+3', 'arr3+len1', 'len1+arr2', 'three_1+2+3',
-             'four_1+2+1+2'],
+             'four_1+2+1+2', 'arr3+scalar', 'arr2+scalar+arr2', 'scalar+arr3', 'scalars3'],
     kind_c=[['inv', 'asc'], ['inv', 'wide'], ['comp', 'asc']],
     starts=['u03', 'hi', 'mixed'],
     bounds=['default', 'scalar', 'vec'],
